@@ -84,6 +84,13 @@ CLAIMS["C10"] = ("MIR dataflow on EvtxReader::analyze/next: provenance of the in
     "Does not decide the evtx crate's enumeration or rendering.",
     "DESIGN.md §3 C10")
 
+CLAIMS["C16"] = ("literal-table extraction from the MIR string-comparison chains of pathbuf_to_filetype_impl (suffix table vs bare-name table), provenance of every FileType's container field and of every self-call's arguments, size-change termination argument (with_extension(\"\") under a non-empty-suffix guard)",
+    "Static necessary-condition check of the file-name classifier: both literal tables agree on every shared type word; every constructed "
+    "FileType carries the container variable; recursion passes the unparseable flag unchanged and Some(container) with one distinct container "
+    "per compression family; all literal comparisons are on lower-cased strings; every self-call strictly shortens the name (termination); "
+    "junk trimming removes all characters of the documented sets. Does not decide Path::extension semantics on odd names.",
+    "DESIGN.md §3 C16")
+
 NA_REASON = {}
 
 checks = []
